@@ -40,6 +40,9 @@ CONDS = {
     "hastype": lambda k: ("and", ("pc", "HasType", (A(X, "ref"), "Item")), ("cmp", "eq", A(X, "p"), L(k))),
     "meth": lambda k: ("t", ("c", X, "is_p", (k,))),
     "notpf": lambda k: ("not", ("pf", "p_eq", (X, L(k)))),
+    "pfnested": lambda k: ("pf", "p_eq_nested", (X, L(k))),
+    "notpc": lambda k: ("not", ("pc", "PEq", (X, L(k)))),
+    "pc_or_cmp": lambda k: ("or", ("pc", "PEq", (X, L(k))), ("cmp", "eq", A(X, "q"), L(5))),
 }
 HEADS = ("var", "ctor", "add", "addalt")
 AMBIENTS = ("none", "query", "rule")
